@@ -1,9 +1,10 @@
 CONSTANTS
   HashMode = "real"
   Bug = "none"
-  Sweeps = {"pairs", "deep"}
-  PairDepth = 3
-  DeepDepth = 3
+  Sweeps = {"pairs", "near", "deep"}
+  PairDepth = 2
+  NearDepth = 3
+  DeepDepth = 2
   EmitCases = TRUE
 INIT Init
 NEXT Next
